@@ -4,22 +4,49 @@ package rtpmpeg4audio
 
 // Contracts checked by /verif/govc (see /verif/DESIGN.md). Comment-only file.
 
-// C07, resynchronisation of the RFC 3640 depacketizer: whenever Decode fails (other than by
-// asking for more packets) and whenever it returns access units, no partial access unit is
-// left behind, so the next start packet is decoded from a clean state.
+// Representation invariant of the RFC 3640 depacketizer: the field widths are those of a
+// parsed format (sizelength >= 1), and the partial access unit never exceeds one packet's
+// worth of bytes or, once a second fragment arrived, the codec's maximum (5120).
+//@ typeinv Decoder d
+//@   inv[C08] d.SizeLength >= 1 && d.IndexLength >= 0 && d.IndexDeltaLength >= 0
+//@   inv[C08] 0 <= d.fragmentsSize && d.fragmentsSize <= 65535
+
+// The AU-header section of headersLen bits lies inside buf and holds at least one header.
+// (The index into dataLens inside the second loop is not claimed: it needs the count computed
+// by the first loop to be related to the second loop's progress.)
 //@ func (d *Decoder) readAUHeaders
+//@   requires headersLen >= 1 && headersLen <= 65535
+//@   ensures[C08] err == nil ==> len(ret) >= 1 && headersLen <= 8*len(buf)
 //@   modifies fresh
+//@   loop 1
+//@     invariant 0 <= i && 0 <= count && (i > 0 ==> count >= 1) && count <= i && count <= headersLen && d.SizeLength >= 1 && d.IndexLength >= 0 && d.IndexDeltaLength >= 0
+//@   loop 2
+//@     invariant 0 <= pos && pos <= 8*len(buf) && pos >= old(headersLen) - headersLen && len(dataLens) == count && count >= 1 && d.SizeLength >= 1 && d.IndexLength >= 0 && d.IndexDeltaLength >= 0
+
 //@ func (d *Decoder) removeADTS
+//@   opt typeinv=off
 //@   modifies d.firstAUParsed, d.adtsMode, elems(aus), fresh
 //@ func joinFragments
+//@   opt safety-tag=C08
+//@   requires size >= 0 && size <= 1048576
+//@   ensures[C08] len(ret) == size
 //@   modifies fresh
+//@   loop 1
+//@     invariant _i >= 0 && 0 <= n && n <= size && len(ret) == size && fresh(ret)
 
 //@ func (d *Decoder) resetFragments
+//@   opt typeinv=off
 //@   ensures[C07] d.fragmentsSize == 0 && len(d.fragments) == 0
 //@   modifies d.fragments, d.fragmentsSize
 
+// C08: no packet makes Decode panic and the partial access unit stays within the maximum.
+// C07: whenever Decode fails (other than by asking for more packets) and whenever it returns
+// access units, no partial access unit is left behind.
 //@ func (d *Decoder) Decode
-//@   requires pkt != nil
+//@   opt safety-tag=C08
+//@   requires pkt != nil && len(pkt.Payload) <= 65535
 //@   ensures[C07] err != nil && err != ErrMorePacketsNeeded ==> d.fragmentsSize == 0
 //@   ensures[C07] err == nil ==> d.fragmentsSize == 0
 //@   modifies *
+//@   loop 1
+//@     invariant _i >= 0 && len(aus) == len(dataLens) && fresh(aus) && d.fragmentsSize == 0
